@@ -1131,8 +1131,31 @@ pub(crate) fn m_table_caption() {
     assert!(out.contains("captiontext"), "the caption's text is dropped: {:?}", out);
 }
 
+/// Minimum widths: a link reserves max(children, 5) columns, so with overflow allowed a quoted / listed link is
+/// laid out within max(width, prefixes + 5), and without overflow it renders from that width on.
+pub(crate) fn m_link_min_width() {
+    let _which: u8 = kani::any();
+    let cases: [(&[u8], usize); 2] = [
+        (b"<blockquote><a href=\"http://example.com/\">aaa bbb ccc ddd eee</a></blockquote>", 2),
+        (b"<ul><li><blockquote><a href=\"http://example.com/\">aaa bbb ccc ddd eee</a></blockquote></li></ul>", 4),
+    ];
+    for (html, prefixes) in cases.iter() {
+        for width in 1..=12usize {
+            let s = crate::config::plain().allow_width_overflow().string_from_read(*html, width).expect("overflow allowed: must render");
+            let bound = width.max(prefixes + 5);
+            for l in s.lines() {
+                assert!(UnicodeWidthStr::width(l) <= bound, "width {}: line {:?} wider than {}", width, l, bound);
+            }
+        }
+        for width in (prefixes + 5)..=(prefixes + 8) {
+            let r = crate::config::plain().string_from_read(*html, width);
+            assert!(r.is_ok(), "does not render at width {} although prefixes + 5 columns are available", width);
+        }
+    }
+}
+
 crate::verif_common::registry! {
-    m_table_sections, m_table_caption, m_inline_tags, m_colspan_huge, m_frag_in_word, m_ol_prefix_width, m_dom_reuse, m_columns, m_prefix_blank_lines, m_shallow_empty, m_link_footnotes, m_strike_affix, m_frag_nested, m_dom_children, m_cell_unwind, m_routes_width, m_insert_child, m_ol_numbering, m_prefix_width, m_into_cells, m_table_col_width, m_table_alloc,
+    m_link_min_width, m_table_sections, m_table_caption, m_inline_tags, m_colspan_huge, m_frag_in_word, m_ol_prefix_width, m_dom_reuse, m_columns, m_prefix_blank_lines, m_shallow_empty, m_link_footnotes, m_strike_affix, m_frag_nested, m_dom_children, m_cell_unwind, m_routes_width, m_insert_child, m_ol_numbering, m_prefix_width, m_into_cells, m_table_col_width, m_table_alloc,
     r1_cascade_pairs, r1_cascade_triples, r2_specificity_order, r2_specificity_add,
     r3_ol_prefix_total, r4_ol_prefix_is_max,
     r9_tree_map_reduce_order, r12_config_plumbing, r12_width_zero,
